@@ -297,6 +297,20 @@ def extract_encode(prog, f):
             sel[cmpf[0][0]] = fconst(v)
         rnd = sel
         X = y
+    elif X.op == "phi" and fa.phi_operands(X) and all(v.op == "bin" and v.args[0] in ("Add", "Sub") and is_lit(v.args[2]) for pb, v in fa.phi_operands(X)) \
+            and len({v.args[1] for pb, v in fa.phi_operands(X)}) == 1:
+        # the half step written inside both branches:  value = if value < 0.0 { value - h } else { value + h }
+        y = fa.phi_operands(X)[0][1].args[1]
+        sel = {}
+        for pb, v in fa.phi_operands(X):
+            off = fconst(v.args[2]) * (1 if v.args[0] == "Add" else -1)
+            facts = [fact_of_guard(gd) for gd in fa.guards(pb) if gd[4] == "switch"]
+            cmpf = [fc for fc in facts if fc[0] in ("Ge", "Gt", "Lt", "Le") and fc[1] is y and is_const(fc[2]) and fconst(fc[2]) == 0]
+            if len(cmpf) != 1:
+                return None, "rounding offset not selected by the sign of the same quotient"
+            sel[cmpf[0][0]] = off
+        rnd = sel
+        X = y
     m["round"] = rnd
     c = bsub = None
     x0_bias = None
